@@ -12,8 +12,8 @@ import traceback
 import multiprocessing as mp
 
 VERIF = os.path.dirname(os.path.dirname(os.path.abspath(__file__)))
-EVIDENCE = os.path.join(VERIF, "evidence")
-REPLAYS = os.path.join(VERIF, "replays")
+EVIDENCE = os.environ.get("VMC_EVIDENCE_DIR") or os.path.join(VERIF, "evidence")      # redirected for mutant runs only
+REPLAYS = os.environ.get("VMC_REPLAY_DIR") or os.path.join(VERIF, "replays")
 KNOWN = os.path.join(VERIF, "known_findings.json")
 
 
